@@ -426,7 +426,7 @@ func run(prop, tier string, seed int64, outDir, replay string) (*core.Result, er
 						res.Dist(fmt.Sprintf("custom-unmarshaler:%v", n > 0))
 						if n > 0 && calls < n {
 							fail("C02/custom-unmarshaler-not-called", fmt.Sprintf("the response has %d non-null value(s) of scalar %s, whose binding names the unmarshaler %s, but it was called %d time(s)", n, sc, mu[1], calls))
-						} else if n == 0 && calls > 0 {
+						} else if n == 0 && calls > 0 && counts["\x00truncated"] == 0 {
 							fail("C02/custom-unmarshaler-called-without-value", fmt.Sprintf("unmarshaler %s was called %d time(s) although the response has no value of scalar %s", mu[1], calls, sc))
 						}
 					}
